@@ -1,4 +1,5 @@
 import Dawgs.Proofs.C01S2Sql
+import Dawgs.Proofs.C01At
 /-
 C01 / S2a — Cypher side: MATCH (a[:K])-[r[:T]]->(b[:K]) under the reference semantics.
 -/
@@ -64,7 +65,7 @@ theorem matchSteps_hop (g : Graph) (q : S2.Query) (hwf : q.wf = true) (a : NodeR
         (farNodes g q e).map (fun b => (e, b)))).map (fun eb => (hopState q a eb.1 eb.2, [a.id, eb.2.id], [eb.1.id]))) := by
   unfold S2.Query.wf at hwf
   simp only [Bool.and_eq_true, bne_iff_ne, ne_eq] at hwf
-  obtain ⟨⟨⟨⟨⟨⟨har, hab⟩, hrb⟩, _⟩, _⟩, _⟩, _⟩ := hwf
+  obtain ⟨⟨⟨⟨⟨⟨⟨har, hab⟩, hrb⟩, _⟩, _⟩, _⟩, _⟩, _⟩ := hwf
   have hra : (q.r == q.a) = false := by
     cases h : q.r == q.a with
     | false => rfl
@@ -143,15 +144,6 @@ theorem matchPart_hop (g : Graph) (q : S2.Query) (hwf : q.wf = true) (hn : ∀ n
       simp only [Quirks.none] at h2
       simp only [if_true, h2, ebind_ok, epure_ok, List.map_map, Function.comp_def]
 
-theorem clause_hop (g : Graph) (q : S2.Query) (hwf : q.wf = true) (hn : ∀ n ∈ g.nodes, g.node? n.id = some n) :
-    evalClauses .none g true [[]] q.toCy.clauses = .ok ((hopMatchesCy g q).map (fun m => (hopState q m.1 m.2.1 m.2.2).env)) := by
-  unfold S2.Query.toCy
-  simp only [evalClauses, evalClause, mapE_singleton, matchParts, Quirks.none, Bool.false_eq_true, if_false]
-  have hmp := matchPart_hop g q hwf hn
-  simp only [Quirks.none] at hmp
-  simp only [hmp, ebind_ok, epure_ok, List.flatten_cons, List.flatten_nil, List.append_nil, Bool.and_false, Bool.false_and, filterE_true,
-    Bool.false_eq_true, if_false, List.map_map, Function.comp_def]
-
 /-- the Cypher value of a RETURN item on the match (a, e, b) -/
 def itemC2 (a : NodeRec) (e : EdgeRec) (b : NodeRec) : S2.Item → CVal
   | .ent .a _ => .node a.id
@@ -169,7 +161,7 @@ theorem hopEnv_lookup (q : S2.Query) (hwf : q.wf = true) (a : NodeRec) (e : Edge
     (hopState q a e b).env.lookup q.b = some (.node b.id) := by
   unfold S2.Query.wf at hwf
   simp only [Bool.and_eq_true, bne_iff_ne, ne_eq] at hwf
-  obtain ⟨⟨⟨⟨⟨⟨har, hab⟩, hrb⟩, _⟩, _⟩, _⟩, _⟩ := hwf
+  obtain ⟨⟨⟨⟨⟨⟨⟨har, hab⟩, hrb⟩, _⟩, _⟩, _⟩, _⟩, _⟩ := hwf
   have h1 : (q.a == q.b) = false := by simpa using hab
   have h2 : (q.a == q.r) = false := by simpa using har
   have h3 : (q.r == q.b) = false := by simpa using hrb
@@ -227,11 +219,101 @@ theorem hopMatches_mem (g : Graph) (q : S2.Query) (hn : ∀ n ∈ g.nodes, g.nod
       exact this.1
     exact ⟨hn a ha', he e he'.1, by rw [hid]; exact hnb, hid.symm, hst⟩
 
-/-- CYPHER SIDE of S2a: the reference semantics returns one row per match, in the order a-nodes / outgoing edges -/
+-- ------------------------------------------------------------------ WHERE over the hop
+
+def entOf (a : NodeRec) (e : EdgeRec) (b : NodeRec) : S2.Ref → Ent
+  | .a => nodeEnt a
+  | .r => edgeEnt e
+  | .b => nodeEnt b
+
+/-- every WHERE conjunct holds on the match (a, e, b) -/
+def okWhere (q : S2.Query) (a : NodeRec) (e : EdgeRec) (b : NodeRec) : Bool :=
+  q.wh.all (fun c => semE (entOf a e b c.1) c.2 == some true)
+
+/-- the matches of the hop that pass WHERE, in Cypher's enumeration order -/
+def whereMatchesCy (g : Graph) (q : S2.Query) : List (NodeRec × EdgeRec × NodeRec) :=
+  (hopMatchesCy g q).filter (fun m => okWhere q m.1 m.2.1 m.2.2)
+
+theorem conjunct_hop (g : Graph) (q : S2.Query) (hwf : q.wf = true) (a : NodeRec) (e : EdgeRec) (b : NodeRec)
+    (ha : g.node? a.id = some a) (he : g.edge? e.id = some e) (hb : g.node? b.id = some b) (c : S2.Ref × S1.Pred) (fl : Bool) :
+    Cy.evalExpr .none g (hopState q a e b).env fl (S1.Pred.toCy (q.name c.1) c.2) = .ok (triToC (semE (entOf a e b c.1) c.2)) := by
+  obtain ⟨la, lr, lb⟩ := hopEnv_lookup q hwf a e b
+  obtain ⟨x, p⟩ := c
+  cases x with
+  | a => exact (cy_predAt g _ _ q.a _ (cyEnt_node g a ha) la p).1 fl
+  | r => exact (cy_predAt g _ _ q.r _ (cyEnt_edge g e he) lr p).1 fl
+  | b => exact (cy_predAt g _ _ q.b _ (cyEnt_node g b hb) lb p).1 fl
+
+theorem foldr_triAnd_true : ∀ (ts : List Tri), (ts.foldr triAnd (some true) == some true) = ts.all (fun t => t == some true)
+  | [] => rfl
+  | t :: ts => by
+    rw [List.foldr_cons, List.all_cons, ← foldr_triAnd_true ts]
+    cases t with
+    | none => cases ts.foldr triAnd (some true) with
+      | none => rfl
+      | some y => cases y <;> rfl
+    | some x => cases ts.foldr triAnd (some true) with
+      | none => cases x <;> rfl
+      | some y => cases x <;> cases y <;> rfl
+
+theorem evalConj_hop (g : Graph) (q : S2.Query) (hwf : q.wf = true) (a : NodeRec) (e : EdgeRec) (b : NodeRec)
+    (ha : g.node? a.id = some a) (he : g.edge? e.id = some e) (hb : g.node? b.id = some b) : ∀ (cs : List (S2.Ref × S1.Pred)),
+    Cy.evalConj .none g (hopState q a e b).env (cs.map (fun c => S1.Pred.toCy (q.name c.1) c.2)) =
+      .ok ((cs.map (fun c => semE (entOf a e b c.1) c.2)).foldr triAnd (some true))
+  | [] => by rw [List.map_nil, Cy.evalConj]; rfl
+  | c :: cs => by
+    rw [List.map_cons, Cy.evalConj, conjunct_hop g q hwf a e b ha he hb c false, evalConj_hop g q hwf a e b ha he hb cs]
+    simp only [ebind_ok, triOfC_triToC, epure_ok, List.map_cons, List.foldr_cons]
+
+/-- the WHERE test of the MATCH clause on a match of the hop -/
+theorem where_hop (g : Graph) (q : S2.Query) (hwf : q.wf = true) (a : NodeRec) (e : EdgeRec) (b : NodeRec)
+    (ha : g.node? a.id = some a) (he : g.edge? e.id = some e) (hb : g.node? b.id = some b) :
+    (q.whereCy = none → okWhere q a e b = true) ∧
+    (∀ w, q.whereCy = some w → (do let v ← Cy.evalExpr .none g (hopState q a e b).env false w; truthy v) = .ok (okWhere q a e b)) := by
+  unfold S2.Query.whereCy okWhere
+  cases hw : q.wh with
+  | nil => exact ⟨fun _ => rfl, fun w h => by cases h⟩
+  | cons c cs =>
+    cases cs with
+    | nil =>
+      refine ⟨fun h => (by cases h), fun w h => ?_⟩
+      simp only [Option.some.injEq] at h
+      subst h
+      simp only [conjunct_hop g q hwf a e b ha he hb c false, ebind_ok, truthy_tri, List.all_cons, List.all_nil, Bool.and_true]
+    | cons c' cs' =>
+      refine ⟨fun h => (by cases h), fun w h => ?_⟩
+      simp only [Option.some.injEq] at h
+      subst h
+      rw [Cy.evalExpr, evalConj_hop g q hwf a e b ha he hb (c :: c' :: cs')]
+      simp only [ebind_ok, epure_ok, truthy_tri, foldr_triAnd_true, List.all_map]
+      rfl
+
+theorem whereMatches_mem (g : Graph) (q : S2.Query) (m : NodeRec × EdgeRec × NodeRec) (hm : m ∈ whereMatchesCy g q) : m ∈ hopMatchesCy g q :=
+  (List.mem_filter.mp hm).1
+
+theorem clause_hop (g : Graph) (q : S2.Query) (hwf : q.wf = true) (hn : ∀ n ∈ g.nodes, g.node? n.id = some n)
+    (he : ∀ e ∈ g.edges, g.edge? e.id = some e) :
+    evalClauses .none g true [[]] q.toCy.clauses = .ok ((whereMatchesCy g q).map (fun m => (hopState q m.1 m.2.1 m.2.2).env)) := by
+  unfold S2.Query.toCy
+  have hmp := matchPart_hop g q hwf hn
+  simp only [evalClauses, evalClause, mapE_singleton, matchParts, ite_self, hmp, ebind_ok, epure_ok, List.flatten_cons, List.flatten_nil,
+    List.append_nil]
+  rw [filterE_map_ok (fun m => hopState q m.1 m.2.1 m.2.2) _ (fun m => okWhere q m.1 m.2.1 m.2.2) (hopMatchesCy g q)]
+  · simp only [ebind_ok, Bool.false_and, Bool.and_false, Bool.false_eq_true, if_false, List.map_map, Function.comp_def,
+      List.flatten_cons, List.flatten_nil, List.append_nil]
+    rfl
+  · intro m hm
+    obtain ⟨h1, h2, h3, _, _⟩ := hopMatches_mem g q hn he m hm
+    obtain ⟨w1, w2⟩ := where_hop g q hwf m.1 m.2.1 m.2.2 h1 h2 h3
+    cases hw : q.whereCy with
+    | none => simp only [w1 hw]
+    | some w => exact w2 w hw
+
+/-- CYPHER SIDE of S2: the reference semantics returns one row per match that passes WHERE, in the order a-nodes / outgoing edges -/
 theorem cy_side2 (g : Graph) (q : S2.Query) (hwf : q.wf = true) (hn : ∀ n ∈ g.nodes, g.node? n.id = some n) (he : ∀ e ∈ g.edges, g.edge? e.id = some e) :
     Cy.eval .none g q.toCy = .ok (Cy.projNames (q.items.map (S2.Item.toCy q)),
-      (hopMatchesCy g q).map (fun m => q.items.map (itemC2 m.1 m.2.1 m.2.2))) := by
-  have hc := clause_hop g q hwf hn
+      (whereMatchesCy g q).map (fun m => q.items.map (itemC2 m.1 m.2.1 m.2.2))) := by
+  have hc := clause_hop g q hwf hn he
   unfold Cy.eval
   have hparts : q.toCy.parts = [] := rfl
   simp only [hparts, evalParts, ebind_ok, List.isEmpty_nil, hc]
@@ -244,13 +326,13 @@ theorem cy_side2 (g : Graph) (q : S2.Query) (hwf : q.wf = true) (hn : ∀ n ∈ 
   have hlim : q.toCy.ret.limit = none := rfl
   simp only [hall, hdist, hitems, hob, hskip, hlim, Bool.false_eq_true, if_false, anyAgg_items2, Bool.or_self]
   have hpr : plainRows .none g (Cy.projNames (q.items.map (S2.Item.toCy q))) (q.items.map (S2.Item.toCy q))
-      ((hopMatchesCy g q).map (fun m => (hopState q m.1 m.2.1 m.2.2).env)) =
-      .ok ((hopMatchesCy g q).map (fun m => (q.items.map (itemC2 m.1 m.2.1 m.2.2),
+      ((whereMatchesCy g q).map (fun m => (hopState q m.1 m.2.1 m.2.2).env)) =
+      .ok ((whereMatchesCy g q).map (fun m => (q.items.map (itemC2 m.1 m.2.1 m.2.2),
         (Cy.projNames (q.items.map (S2.Item.toCy q))).zip (q.items.map (itemC2 m.1 m.2.1 m.2.2)) ++ (hopState q m.1 m.2.1 m.2.2).env))) := by
     unfold plainRows
     apply mapE_map_ok
     intro m hm
-    obtain ⟨h1, h2, h3, _, _⟩ := hopMatches_mem g q hn he m hm
+    obtain ⟨h1, h2, h3, _, _⟩ := hopMatches_mem g q hn he m (whereMatches_mem g q m hm)
     have : (q.items.map (S2.Item.toCy q)).mapE (fun it => Cy.evalExpr .none g (hopState q m.1 m.2.1 m.2.2).env false it.e) =
         .ok (q.items.map (itemC2 m.1 m.2.1 m.2.2)) :=
       mapE_map_ok _ _ _ q.items (fun it _ => eval_itemC2 g q hwf m.1 m.2.1 m.2.2 h1 h2 h3 it)
